@@ -168,6 +168,15 @@ def r3(cx, rec):
                     continue
                 reg = f.only_via_edge((sb, tgt)) | {tgt}
                 calls = [(bb, f.expr_call(bb)) for bb in mirq.real_calls(f) if bb in reg and f.expr_call(bb)[1].startswith(ENC + '::add_')]
+                # emissions of the same loop iteration that precede the dispatch (a key hoisted out of the arms)
+                nxt = [bb for bb in mirq.real_calls(f) if f.expr_call(bb)[1] == 'std::iter::Iterator::next' and sb in f.reach_from(bb) and bb in f.reach_from(sb)]
+                if nxt:
+                    between = f.reach_from(nxt[-1], cut_blocks=[sb])
+                    pre = [(bb, f.expr_call(bb)) for bb in mirq.real_calls(f)
+                           if bb in between and bb not in reg and f.expr_call(bb)[1].startswith(ENC + '::add_') and sb in f.reach_from(bb, cut_blocks=[nxt[-1]])]
+                    ok_dom, _ = C.must_pass(f, [bb for bb, c in pre], [sb], start=nxt[-1]) if pre else (True, None)
+                    if pre and ok_dom:
+                        calls = pre + calls
                 names = [c[1].split('::')[-1] for bb, c in calls]
                 rec.site(f, tgt, '%s: %s -> %s' % (name, v, names))
                 for bb, c in calls:
